@@ -5,7 +5,8 @@ CONSTANTS
   Coords <- Coords7
   DEN = 4
   MaxNum = 4
-  Base <- BaseMat
+  Base <- TheBase
+  Which = "Mat"
   Mults <- QMults
   Adds <- QAdds
   Exps <- QExps
